@@ -19,6 +19,8 @@ LEVEL = "other"
 def run(chk):
     cfgs = ["base", "z"] if chk.tier == "quick" else ["base", "z", "hi", "noexc"]
     chk.configs = cfgs
+    chk.rule("LOOP.bound-live", "the output builders' index loops over outrec_list_ re-read its size in every iteration: rings that CleanCollinear splits off while "
+             "the solution is built (appended to the list) are emitted too - in the paths output as in the tree output")
     chk.rule("PRECEDE", "every BuildPath64/D(.., isOpen=false, ..) is preceded on all paths, for the same OutRec, by CleanCollinear, and passes reverse_solution_")
     chk.rule("PLUMB", "preserve_collinear_/reverse_solution_ written only by their setters; preserve_collinear_ reaches CleanCollinear and TrimHorz; "
              "OutRec::path built only in CheckBounds; polytree children created from outrec->path")
@@ -47,6 +49,10 @@ def run(chk):
         from ..engines import e9_safety as e9
         e9.rule_int64_product(db, chk, cfg)
         e10.rule_removal_restart(db, chk, cfg)
+        from ..engines import e2_state as _e2, e10_pipeline as _e10
+        if _e10.rule_bound_live(db, chk, cfg, lambda cls: _e2.E2(db, chk, cfg, cls)) < 4:
+            from ..extract import AnalysisBroken as _AB
+            raise _AB("LOOP.bound-live: fewer than 4 index loops over a member container that their body can grow (configuration %s)" % cfg)
         from ..engines import e14_poly as e14
         e14.rule_cross(db, chk, cfg)
         e14.rule_measure(db, chk, cfg)
